@@ -666,6 +666,15 @@ def cases(rng, tier):
     for f in ([3, 2], [-8, -2, -1, 1], [5, 6, -7, 6, -7, 6]): out.append(cli_case(f, None, 'known'))
     # one_step (needs the feature-gated access wrapper in /repo)
     out += step_cases(rng, th, bases + rb, limit, cost)
+    # one Round-2 step on the wildly ramified pure fields at p = 2 and 3, from the starting order (no factorisation of the
+    # discriminant is needed for a single step, so degree 8 and 9 are affordable here)
+    if step_supported():
+        wild = [f for f, _, _ in ph] + [[12] + [0] * 7 + [1], [-20] + [0] * 7 + [1], [6] + [0] * 8 + [1], [-4] + [0] * 6 + [1]]
+        for f in wild:
+            S = [[F(x) for x in r] for r in nonmonic_basis(f)]
+            for q in (2, 3):
+                out.append(Case('ib_one_step', line('ib_one_step', f, [Id('nonmonic'), f], q), oracle=o_step(f, S, q, True),
+                                tag='step:start:pure-wild', always_oracle=True))
     # edge stream: outside the property's domain, compared with the model only
     edge = [[], [0], [4], [-1], [0, 0, 1], [0, 0, 0, 1], [1, 2, 1], [-1, 0, 1], [0, 1, 1], [-1, 0, 0, 1], [2, 0, 2], [4, 0, 2], [6, 4],
             [0, 2], [-2, 0, 1, 0, 1], [1, 0, 2, 0, 1], [4, 0, 5, 0, 1], [-4, 0, 0, 0, 1], [0, 1, 0, 1], [1, 0, 0, 0, 0], [2, 3, 0]]
